@@ -226,6 +226,19 @@ def serves_writer(prog, f):
     return False
 
 
+def flat_tokens(t, out=None):
+    if out is None:
+        out = []
+    if isinstance(t, (tuple, list)):
+        out.append('(')
+        for x in t:
+            flat_tokens(x, out)
+        out.append(')')
+    else:
+        out.append(str(t))
+    return out
+
+
 def count_dbg(node):
     """number of debug-assertion expansions in a HIR tree"""
     from hircanon import is_dbg
@@ -431,9 +444,14 @@ def run(ctx):
             cb = collections.Counter((e[1], e[2]) for e in gsi[odd_t])     # effects without their guards: a changed test must not count as "everything changed"
             uni = sum((ca | cb).values())
             sim = (sum((ca & cb).values()) / uni) if uni else 1.0
-            if ref and uni >= 12 and sim < 0.4:
+            # ... but one changed token can flow into most effects once everything is inlined, so the decision is taken on
+            # the source shape: token similarity of the canonical syntax trees (a one-token slip leaves > 95 % in place)
+            import difflib
+            ta, tb2 = flat_tokens(forms[ref[0]][key]) if ref else [], flat_tokens(forms[odd_t][key])
+            hsim = difflib.SequenceMatcher(None, ta, tb2, autojunk=False).ratio() if ref else 1.0
+            if ref and uni >= 12 and sim < 0.4 and hsim < 0.7:
                 ctx.add(RULE, f, 'sibling(%s)' % key[1], 'info', '%s is implemented differently in the %s copy (%.0f%% of the guarded effects in common with the %s cop%s): sibling comparison not applicable, the copy is checked on its own by the other rules' % (key[1], fams[odd_t], 100 * sim, '/'.join(others), 'ies' if len(others) > 1 else 'y'),
-                        props_of(prog, f, c09), f.line, {'similarity': round(sim, 2)}, nontrivial=False)
+                        props_of(prog, f, c09), f.line, {'similarity': round(sim, 2), 'syntax_similarity': round(hsim, 2)}, nontrivial=False)
                 continue
             ctx.add(RULE, f, 'sibling(%s)' % key[1], 'violation',
                     'copies disagree: %s in the %s copy differs from the %s cop%s; first difference at %s' % (key[1], fams[odd_t], '/'.join(others) or 'other', 'ies' if len(others) > 1 else 'y', d),
